@@ -273,3 +273,40 @@ CHECKS = {
         "technique": "Lean 4 (free-monad memoisation model, induction over read histories, rank certificates by decide +kernel on translated tables, permutation lemmas, least-squares uniqueness for the fill fixed point) + cache-state correspondence on real objects + subprocess/in-process byte-identity oracle",
     },
 }
+
+# ------------------------------------------------------------------------------------------------------------------
+# Round 3 (source ties over the glue code): appended to the claims above.  `text` is added to level_claimed.text,
+# `technique` to the technique field.
+TIE_NOTE = (" Source ties (tools/gens/*.py -> lean/Generated/*Spec.lean / *Src.lean, re-generated from the working tree on every run; "
+            "a construct outside a generator's grammar is a broken tie, reported, never skipped): ")
+ADDENDA = {
+    "C01": {"text": "the glue of mode_gamma.py the statement rests on (which member of the returned triple is gamma / V dgamma/dV, signs) is restated from the translated pattern (c01_mode_glue_is_source)."},
+    "C02": {"text": "shear target formula and task identity/equality/store wiring restated from the translated shear.py / tasks.py (c02_shear_target_is_source, c02_tasks_are_source)."},
+    "C04": {"text": "shear target, non-shear value bodies and full_modulus defaults restated from the translations of shear.py / nonshear.py / full_modulus.py (c04_*_is_source)."},
+    "C05": {"text": "task identity, mode-gamma glue and the qha adapter (field tables, read_input, pressure guard) restated from the translations of tasks.py / mode_gamma.py / qha_adapter.py (c05_*_is_source)."},
+    "C06": {"text": "the pressure-range guard is translated from QHACalculator.desired_pressure_status into an expression value (field, column, reduction, comparison, exception) and the model's range check is proved equal to its meaning for every table and grid (pressure_guard_is_source; accept <=> in range restated for the translated guard); loading sequence read_input -> refine_grid -> guard translated (adapter_load_order_is_source).",
+            "technique": "translator tie for the range guard (GuardExpr evaluator = model)"},
+    "C07": {"text": "the glue of Calculator / CijVolumeBaseInterface is translated as data (tools/gens/calc_src.py): assembly indices, compliance labelling, REGEX_CIJ and the __getattr__ dispatch, __init__ order, class-level state, in-place operations; assembly / labelling / name lookup models are proved to be the evaluation of that data for all key lists and names (calc_glue_is_source_*), label (i,j) is the (i,j) entry of the inverse whatever the key order, no shared state and no in-place writes hence read-order freedom on the generated read graph.",
+            "technique": "translator tie for the calculator glue + order-freedom via the memo-history theorems"},
+    "C11": {"text": "pchip and akima are no longer a contract parameter: scipy's PchipInterpolator/Akima1DInterpolator slope rules and PPoly evaluation are modelled (CijModel/PPoly.lean, constants read from the installed scipy source); proved: node values, nu=1 is the derivative of nu=0 everywhere and nu=2 of nu=1 off interior nodes, C1 at nodes, PCHIP slope box and Fritsch-Carlson monotonicity, power-law exactness, (exp s, -s', -s'') consistency without contract; bit-for-bit correspondence with scipy; dispatch/constructor/extrapolate wiring of interpolate_mode_ppoly translated (ppoly_glue_is_source). PARTIAL now only: FITPACK spline.",
+            "technique": "piecewise-cubic Hermite model of scipy's pchip/akima with HasDerivAt proofs; bit-for-bit scipy correspondence"},
+    "C12": {"text": "'inside the computed range' is the translated guard of qha_adapter.py: an in-range non-empty grid is never refused, an overshooting one always (c12_in_range_grid_not_refused, c12_out_of_range_grid_refused); non-shear value bodies, shear target and mode glue restated from their translations."},
+    "C13": {"text": "full_modulus defaults/bodies, qha adapter tables and guard, non-shear bodies restated from their translations (c13_*_is_source)."},
+    "C14": {"text": "inventory of process-wide state translated from EVERY module under cij/ (tools/gens/state_src.py): module/class-level mutable bindings are exactly four constant tables, no function writes to anything outliving the call, no mutable default, no caching decorator, no id()-keyed table, import-time statements only in the three entry modules (c14_shared_objects_known, c14_no_shared_writes, c14_import_time_statements_known, c14_no_hidden_state); task and full_modulus ties restated. Harness: a same-named twin data set (same file names/settings, other frequencies) computed after A in one process.",
+            "technique": "package-wide state inventory translated from the source and pinned by kernel-checked theorems"},
+    "C15": {"text": "the code of results_writer.py / qha_output.py / write_table / write_variables / write_output is translated (tools/gens/writer_src.py) and each model function is proved equal to the interpreter of the translated statements (writer_model_is_source_*: create, format_ij, write_variable, write_ij_variable, convert order, dispatch, registry, write, write_table wiring, write_variables, write_output). Harness: two bases / Calculators writing alternately, 3-decimal pressure grids with independently parsed headers, arrays bit-identical before/after writing.",
+            "technique": "translator tie for the writer code (interpreter of translated statements = model)"},
+    "C16": {"text": "update_config, apply_default_config, read_config and validate_config are printed from the source AST into Lean definitions (tools/gens/config_src.py -> Generated/ConfigSrc.lean); update_config_is_source proves the printed merge equals the model for all values and all iteration orders, so every merge clause is a theorem about the function as written; parser table total on documented suffixes; validation applied to the file's own content with the plain jsonschema.validate; config modules stateless.",
+            "technique": "AST -> Lean shallow embedding of update_config plus an equality proof by well-founded induction"},
+    "C17": {"text": "readers/writers tied to qha_input.py / elast_dat.py (tools/gens/readers_src.py): regex literals are re-parsed and matched by a backtracking matcher in Lean and proved equal to the model's recognisers; field positions, conversions, loop counts, sentinels, write_energy formats, apply_symetry wiring and package re-exports as data consumed by readers_model_is_source_*; the round-trip theorems are restated for the formats the file specifies now.",
+            "technique": "translator tie for the readers (regex matcher in Lean = recogniser; formats as data)"},
+    "C19": {"text": "extract.py / geotherm.py translated (tools/gens/extract_src.py): nearest-index expression tree, branches, transposition, labels, glob/read_table arguments, click options and registration, spline call wiring, statelessness; model = interpreter of the spec (extract_model_is_source_*). The 4x4 bicubic case is modelled exactly (bicubic44 interpolates, reproduces bicubics, unique); any spline meeting the contract reproduces bicubic tables along every geotherm. PARTIAL: FITPACK not-a-knot B-splines for more than 4 nodes per axis stay a contract parameter (measured: bicubic exactness to 1e-9, error ratio >= 8 on refinement).",
+            "technique": "translator tie for the extract commands + tensor-product Lagrange model of the 4x4 spline"},
+    "C20": {"text": "evec_sort / evec_disp2eig / evec_load translated into a description (tools/gens/evec_src.py) whose interpreter is proved equal to the model for all inputs (evec_model_is_source_*: dimension test, overlap orientation and conjugation, greedy loop, disp2eig body and exact rejection K != 3N, regex matcher = scanners, fixed-column slices used once each, loader); evecSort_recovers restated for the interpreted source.",
+            "technique": "translator tie for the eigenvector tools (interpreter of the extracted description = model)"},
+}
+for _pid, _a in ADDENDA.items():
+    if _pid in CHECKS:
+        CHECKS[_pid]["text"] += TIE_NOTE + _a["text"]
+        if "technique" in _a:
+            CHECKS[_pid]["technique"] += " + " + _a["technique"]
